@@ -186,6 +186,10 @@ def ZoneThresholdsOrderFree (c : Cfg) : Prop :=
   ∀ trips trips' : List Trip, trips'.Perm trips →
     ∀ v, zoneThresh bCritical trips = some v → (zoneThr c (trips'.filter (·.listed))).2 = v
 
+/-- the full statement holds for the source as it is (conversions after the loop) -/
+theorem C19_zone_thresholds_full : ZoneThresholdsOrderFree cfg :=
+  fun trips trips' hp v hv => (C19_zone_thresholds trips trips' hp).2 v hv
+
 theorem pyFloat_105000 : pyFloat? [49, 48, 53, 48, 48, 48, 10] = some 105000 := by
   have h1 : stripWs [49, 48, 53, 48, 48, 48, 10] = [49, 48, 53, 48, 48, 48] := by decide
   have h2 : splitOn 46 [49, 48, 53, 48, 48, 48] = [[49, 48, 53, 48, 48, 48]] := by decide
@@ -260,6 +264,10 @@ def cfgTruthiness : Cfg := { cfg with backfillTruthiness := true }
 
 def BackfillKeepsPresent (c : Cfg) : Prop :=
   ∀ (f : Bool) (r : TempRaw) (h : Rat), r.high = some h → (frontTemp c f r).high = some (convertF c f h)
+
+/-- the full statement holds for the source as it is (`is None` tests) -/
+theorem C19_backfill_full : BackfillKeepsPresent cfg :=
+  fun f r h hh => (C19_backfill f r).1 h hh
 
 /-- **Counterexample.** With `if critical and not high`, a high threshold of exactly 0 °C is
     overwritten by the critical one (max = 0, crit = 84000 → high = 84.0). -/
@@ -763,6 +771,59 @@ theorem C19_cpu_stats (r : StatRec) :
 
 /-- **boot_time**: the `btime` line -/
 theorem C19_boot_time (r : StatRec) : bootTime (.content (renderStat r)) = .ok (r.btime : Rat) := bootTime_render r
+
+/-- obligation: `boot_time()` returns the value it has just read (`return ret`), not the module global -/
+theorem cfg_boot_fresh : bootReturnsFresh = true := by decide
+
+/-- the statement over HISTORIES of calls, for either shape of the function -/
+def C19_boot_time_history_Full (fresh : Bool) : Prop :=
+  ∀ (g : Option Rat) (rs : List StatRec),
+    bootTimeRun fresh g (rs.map fun r => .content (renderStat r)) = rs.map fun r => .ok (r.btime : Rat)
+
+theorem bootTimeRun_fresh (g : Option Rat) (ss : List FileState) : bootTimeRun true g ss = ss.map bootTime := by
+  induction ss generalizing g with
+  | nil => rfl
+  | cons s ss ih =>
+    simp only [bootTimeRun, List.map_cons, ih]
+    congr 1
+    unfold bootTimeCall
+    cases bootTime s <;> rfl
+
+/-- **boot_time() is not cached**: over any history of calls — whatever the module global `BOOT_TIME`
+    holds, e.g. after the clock was stepped and the kernel's `btime` moved — every call reports the
+    `btime` line of the /proc/stat of ITS moment. -/
+theorem C19_boot_time_not_cached : C19_boot_time_history_Full bootReturnsFresh := by
+  intro g rs
+  rw [cfg_boot_fresh, bootTimeRun_fresh, List.map_map]
+  apply List.map_congr_left
+  intro r _
+  exact bootTime_render r
+
+def exStat1010 : StatRec :=
+  { cpuTotal := [], cpus := [], intr := 0, intrRest := [], ctxt := 0, btime := 1010
+    processes := 0, softirq := 0, softirqRest := [] }
+
+/-- …which a function that served the remembered value (`return BOOT_TIME`) would violate: global
+    1000, the file says 1010 → 1000 -/
+theorem C19_boot_time_cached_counterexample : ¬ C19_boot_time_history_Full false := by
+  intro h
+  have := h (some 1000) [exStat1010]
+  simp [bootTimeRun, bootTimeCall, bootTime_render, exStat1010] at this
+
+/-- the module global keeps the FIRST value read (Process.create_time() identifies processes by it) -/
+theorem C19_boot_time_global_kept (x : Rat) (ss : List FileState) : bootTimeGlobal (some x) ss = some x := by
+  induction ss with
+  | nil => rfl
+  | cons s ss ih =>
+    unfold bootTimeGlobal bootTimeCall
+    cases bootTime s <;> simpa using ih
+
+/-- the keys the kernel-side renderer of /proc/stat prints with and the parser looks for, spelled out
+    (`cfg_names` ties the SOURCE's strings to the same constants) -/
+theorem C19_stat_keys_literal :
+    kCtxt = "ctxt".toList.map (·.toNat) ∧ kIntr = "intr".toList.map (·.toNat) ∧
+    kSoftirq = "softirq".toList.map (·.toNat) ∧ kBtime = "btime".toList.map (·.toNat) ∧
+    kCpu = "cpu".toList.map (·.toNat) ∧ kProcessor = "processor".toList.map (·.toNat) := by decide
 
 /-! ## round 2: the directories at file-name level -/
 
